@@ -62,6 +62,7 @@ def main():
     out = os.path.join(base, "out-" + name + "-" + str(os.getpid()))
     res = {"seed": seed, "property": prop, "tier": tier}
     subprocess.run(["git", "-C", "/repo", "worktree", "add", "-q", "--detach", wt, "HEAD"], check=True)
+    res["repo_commit"] = subprocess.run(["git", "-C", wt, "rev-parse", "--short", "HEAD"], capture_output=True, text=True).stdout.strip()
     try:
         demo_cmd = open(os.path.join(seed, "demo_cmd.txt")).read().strip().splitlines()[0]
         demo_files = []
@@ -123,10 +124,19 @@ def main():
         # checks
         if props != "none":
             plist = [prop] if props is None else ([p["property_id"] for p in json.load(open("/verif/MANIFEST.json"))["checks"]] if props == "all" else props.split(","))
-            env = dict(ENV, GOSYM_REPO=wt, GOSYM_OUT=out)
+            # the checks read harness files and models from a snapshot of /verif taken now, so that editing
+            # /verif while a long validation runs cannot break it half-way
+            snap = os.path.join(out, "verif-snapshot")
+            os.makedirs(snap, exist_ok=True)
+            for sub in ("harness", "rt"):
+                shutil.copytree(os.path.join("/verif", sub), os.path.join(snap, sub), dirs_exist_ok=True)
+            shutil.copy("/verif/KNOWN_FINDINGS.txt", snap)
+            gosym = os.path.join(snap, "gosym")
+            shutil.copy("/verif/bin/gosym", gosym)
+            env = dict(ENV, GOSYM_REPO=wt, GOSYM_OUT=out, GOSYM_VERIF=snap)
             det = {}
             for p in plist:
-                rc, o, dt = sh(f"/verif/bin/gosym run {p} --tier {tier} --workers 8", "/verif", 7200, env)
+                rc, o, dt = sh(f"{gosym} run {p} --tier {tier} --workers 8", "/verif", 7200, env)
                 lines = o.splitlines()
                 det[p] = {"rc": rc, "s": round(dt, 1),
                           "violations": [l for l in lines if l.startswith("VIOLATION") or l.startswith("  harness=")][:8],
